@@ -38,3 +38,9 @@ import pygal_labels  # noqa: E402
 
 # taskiq/labels.py (LabelType, _LABEL_PARSERS, prepare_label, parse_label) + taskiq/message.py TaskiqMessage.parse_labels (C09)
 SPECS["labels"] = pygal_labels.SPEC
+
+import pygal_labels_send  # noqa: E402
+
+# the send side of the label path: Context.requeue (taskiq/context.py) and the label loop of
+# AsyncKicker._prepare_message (taskiq/kicker.py), over their own copy of LabelType / prepare_label (C09)
+SPECS["labels_send"] = pygal_labels_send.SPEC
